@@ -620,13 +620,28 @@ class ConditionLike:
         return out
 
 
-def _arg_to_json_like(arg, cast_types=False):
+def _arg_to_json_like(arg, cast_types=False, as_item=False):
     """Serialise a callable argument such that `ConditionLike.from_spec` rebuilds it.
 
     `from_spec` looks for `DataPath` specs (and un-escapes literal mappings) in the
     argument itself, in the items of a list argument and in the values of a mapping
     argument, but no deeper; literal mappings are escaped at exactly those places.
+
+    With `as_item`, the argument is itself an item of the list / a value of the mapping
+    that `from_spec` receives (callables with several parameters or `*args`), so only
+    the argument itself is looked at there, not what it contains.
     """
+
+    def check_plain(val):
+        # deeper than `from_spec` looks: only plain data can be written
+        if isinstance(val, (valida.datapath.DataPath, type)):
+            raise TypeError(f"{val!r} cannot be written in JSON form at this depth.")
+        if isinstance(val, (list, tuple)):
+            for i in val:
+                check_plain(i)
+        elif isinstance(val, dict):
+            for i in val.values():
+                check_plain(i)
 
     def escape(mapping):
         mapping = copy.deepcopy(mapping)
@@ -648,14 +663,18 @@ def _arg_to_json_like(arg, cast_types=False):
         if cast_types and isinstance(val, str):
             # `from_spec` reads every string in this position as a type name
             raise TypeError(f"String {val!r} cannot be written where type names go.")
+        check_plain(list(val.values()) if isinstance(val, dict) else val)
         if isinstance(val, dict):
             return escape(val)
         return copy.deepcopy(val)
 
+    if as_item:
+        return item(arg)
     if isinstance(arg, (list, tuple)):
         return [item(i) for i in arg]
     if isinstance(arg, dict):
         if any(isinstance(k, str) and "path" in k for k in arg):
+            check_plain(list(arg.values()))
             return escape(arg)
         return {k: item(v) for k, v in arg.items()}
     return item(arg)
@@ -789,7 +808,7 @@ class Condition(ConditionLike):
         ):
             # more than one pos-or-kw and nothing else, spec val is a dict of kwargs:
             spec_val = {
-                k: _arg_to_json_like(v, cast_types)
+                k: _arg_to_json_like(v, cast_types, as_item=True)
                 for k, v in self.callable.kwargs.items()
             }
 
@@ -797,7 +816,10 @@ class Condition(ConditionLike):
             func_args[i] for i in ("POSITIONAL_OR_KEYWORD", "VAR_KEYWORD")
         ):
             # one var-positional and nothing else, spec val is a list of args:
-            spec_val = [_arg_to_json_like(i, cast_types) for i in self.callable.args]
+            spec_val = [
+                _arg_to_json_like(i, cast_types, as_item=True)
+                for i in self.callable.args
+            ]
 
         elif len(func_args["VAR_KEYWORD"]) == 1 and not func_args["VAR_POSITIONAL"]:
             # zero or more pos-or-kw args and a var-kw arg, spec val is a dict of kwargs
